@@ -71,12 +71,14 @@ func TestC02Delivery(t *testing.T) {
 		faultAt := rapid.IntRange(0, nmsg*nsend).Draw(t, "faultAt")
 		flip := rapid.Bool().Draw(t, "senderListens")
 		byteAPI := p.hdr == nil && rapid.Bool().Draw(t, "byteAPI")
+		// several goroutines may share one receiving socket: each message still goes to exactly one
+		nrecv := rapid.SampledFrom([]int{1, 1, 2, 3}).Draw(t, "receiversPerSocket")
 		if p.multi && wq == 0 && stats.Known(knownPushWQ0) {
 			stats.Excluded(knownPushWQ0)
 			wq = 1
 		}
 		doc := map[string]interface{}{"test": "TestC02Delivery", "pattern": p.name, "transport": tr, "writeq": wq, "readq": rq,
-			"senders": nsend, "msgs": nmsg, "peers": npeers, "fault": fault, "faultAt": faultAt, "senderListens": flip, "byteAPI": byteAPI, "rseed": os.Getenv("VERIF_RSEED")}
+			"senders": nsend, "msgs": nmsg, "peers": npeers, "fault": fault, "faultAt": faultAt, "senderListens": flip, "byteAPI": byteAPI, "receiversPerSocket": nrecv, "rseed": os.Getenv("VERIF_RSEED")}
 		var fmu sync.Mutex
 		var failures [][2]string
 		fail := func(k, f string, a ...interface{}) {
@@ -162,11 +164,14 @@ func TestC02Delivery(t *testing.T) {
 		stopRecv := make(chan struct{})
 		var recvTotal int
 		var rmu sync.Mutex
-		for i, r := range rcvs {
+		for _, r := range rcvs {
+			_ = r.SetOption(mangos.OptionRecvDeadline, 100*time.Millisecond)
+		}
+		for k := 0; k < nrecv*len(rcvs); k++ {
+			i, r := k%len(rcvs), rcvs[k%len(rcvs)]
 			rwg.Add(1)
 			go func(i int, r mangos.Socket) {
 				defer rwg.Done()
-				_ = r.SetOption(mangos.OptionRecvDeadline, 100*time.Millisecond)
 				for {
 					m, err := r.RecvMsg()
 					if err != nil {
@@ -280,7 +285,7 @@ func TestC02Delivery(t *testing.T) {
 					fail("invented", "peer %d received s%d-%d which was never sent", i, x.sender, x.seq)
 					return
 				}
-				if l, ok := last[x.sender]; ok && x.seq <= l {
+				if l, ok := last[x.sender]; ok && x.seq <= l && nrecv == 1 { // with several receiving goroutines their logging order is not the delivery order
 					fail("reordered", "peer %d received message %d of sender %d after message %d on the same connection", i, x.seq, x.sender, l)
 					return
 				}
@@ -311,8 +316,11 @@ func TestC02Delivery(t *testing.T) {
 		if wq <= 1 || rq <= 1 {
 			stats.Class("queue_0_or_1")
 		}
+		if nrecv > 1 {
+			stats.Class("several_receivers_per_socket")
+		}
 		if nsend >= 2 || npeers >= 2 || fd || wq <= 1 || rq <= 1 {
-			stats.NonTrivial(fmt.Sprintf("A|%s|%s|%d|%d|%d|%d|%d|%v|%v", p.name, tr, wq, rq, nsend, nmsg, npeers, fd, flip))
+			stats.NonTrivial(fmt.Sprintf("A|%s|%s|%d|%d|%d|%d|%d|%v|%v|%d", p.name, tr, wq, rq, nsend, nmsg, npeers, fd, flip, nrecv))
 		}
 		stats.Sample(doc)
 	})
